@@ -43,7 +43,7 @@ manifest = {
     "setup_cmd": "bash tools/setup.sh",
     "hooks": {
         "guard": "verif",
-        "enable": "go build/test -tags verif -overlay /verif/.build/overlay.json (harness sources live under /verif/harness and are compiled into /repo's modules by -overlay; /repo carries no hook code)",
+        "enable": "go build/test -tags verif -overlay /verif/.build/overlay.json (harness sources live under /verif/harness and are compiled into /repo's modules by -overlay; /repo carries no hook code; two files are compiled from instrumented copies REGENERATED from the current source on every run — core/internal/congestion/utils.go for C10 and app/internal/proxymux/manager.go for C18 — whose diff against the original is checked to consist of the inserted hook calls only and is written to evidence/C10-hooks.diff / C18-hooks.diff)",
         "baseline_off_cmd": "for m in core extras app; do (cd /repo/$m && go test -vet=off -count=1 -timeout 25m ./...); done",
         "source_commits": [],
         "add_only": True,
